@@ -16,7 +16,7 @@ def run(ctx):
     scope = 2 if thorough else 1
     # 1. MC: the (items, token) state machine with small constants (thorough: also default = cap and
     #    default = 1, so that the default/cap case analysis is covered in every relation)
-    for default, cap, sc in ([(2, 4, 2), (1, 5, 1), (3, 3, 1)] if thorough else [(2, 4, 1)]):
+    for default, cap, sc in ([(2, 4, 2), (1, 5, 2), (3, 3, 1)] if thorough else [(2, 4, 1)]):
         ctx.mc("Paging", "PagingMC.cfg", consts={"Default": default, "Max": cap, "Scope": sc},
                workers=vf.NCPU, deadlock=False, timeout=1500)
     # 2. Gen: the same state machine walks the grid with the real constants (one worker: the random
@@ -161,9 +161,13 @@ MANIFEST = {'engine': "spec/Paging.tla + spec/PagingTrace.tla (TLC) + harness 'p
          'the harness fills electric ListModes, hail ListHails, parent ListChildren, publication ListPublications, '
          'vending ListConsumables/ListInventory and waste ListWasteRecords with the generated ids, follows '
          'next_page_token (bound 2n+5 requests), also starting from 9 classes of corrupted or foreign tokens, and '
+         'and after histories of the trait\'s write operations (create / update / delete with and without allow-missing / '
+         'bad field mask / trait-specific refused and accepted writes such as Dispense, AcknowledgePublication, '
+         'UpdateActiveMode; generated by TLC, interleaved before and between walks); '
          'PagingTrace.tla requires on every recorded chain: no panic, termination, error status for negative size '
          'and undecodable tokens, concatenation of pages = the un-paged listing, page <= requested (default 50, cap '
-         '1000), total_size = n. Bounded model checking of the design plus conformance on the grid; not a proof.',
+         '1000), total_size = n; after a history the pages must be exactly the key set '
+         'the specification computes from the writes (a failed write changes nothing). Bounded model checking of the design plus conformance on the grid; not a proof.',
  'note': 'Trusted base: TLC evaluating the TLA+ predicates; the harness reporting faithfully what the servers '
          'returned (items are reported as positions in the model\'s own un-paged listing). Servers are called '
          'in-process through their RPC methods, not through a gRPC connection (a plain Go error from waste counts '
